@@ -134,6 +134,12 @@ def generalise_value(self, M, vals, stores, loc, path, leaves, force, tid_hint=N
             no = V(n)
         return SliceV(PtrV(v0.ptr.r, po), no, v0.esz)
     if t is AdtV:
+        if forced_here:
+            # the loop body replaces this value by one of a different shape (another variant, an untracked value):
+            # the head value must stand for both
+            if not isinstance(v0.tid, tuple) and self.P.types[v0.tid].get('kind') == 'adt' and self.P.types[v0.tid].get('adt_kind') == 'enum':
+                return AdtV(v0.tid, None, None)
+            return TopV(tid_hint if tid_hint is not None else (v0.tid if not isinstance(v0.tid, tuple) else None))
         if v0.fields is None:
             return v0
         fs = []
@@ -141,6 +147,8 @@ def generalise_value(self, M, vals, stores, loc, path, leaves, force, tid_hint=N
             fs.append(generalise_value(self, M, [v.fields[i] for v in vals], stores, loc, path + (('f', i),), leaves, force))
         return AdtV(v0.tid, v0.variant, fs)
     if t is UnionV:
+        if forced_here:
+            return UnionV(v0.tid, None, None)
         if v0.val is None:
             return v0
         return UnionV(v0.tid, v0.active, generalise_value(self, M, [v.val for v in vals], stores, loc, path + (('u', v0.active),), leaves, force))
@@ -155,7 +163,7 @@ def generalise_value(self, M, vals, stores, loc, path, leaves, force, tid_hint=N
     if t is TermV:
         return self.models.merge_terms(self, M, vals, stores)
     if t is RefV:
-        return v0
+        return TopV(tid_hint) if forced_here else v0
     if t is ArrV:
         return ArrV(v0.tid, v0.n)
     return TopV(tid_hint)
